@@ -6,8 +6,9 @@ TRUSTED = [
     "Lean 4.33 kernel; axioms per theorem listed under coverage.axioms (subset of propext, Classical.choice, Quot.sound)",
     "translate/densead.py (C++ subset parser + symbolic executor for Evaluation*.hpp, DynamicEvaluation.hpp, Math.hpp -> Gen/DenseAd.lean), "
     "validated on every run by the bit-exact correspondence of the generated definitions (at Float) with the real classes",
-    "harness/densead.cpp (tree generator, independent dual-number evaluator, finite differences) + lib/vlib.py differ; model driver (compiled Lean)",
-    "modelled, not verified: IEEE rounding (theorems are over an arbitrary field / over the reals), libm, FastSmallVector storage, GPU decorators",
+    "harness/densead.cpp (tree / comparison / factory generators, independent dual-number evaluator with conditioning, finite differences) + lib/vlib.py differ; model driver (compiled Lean)",
+    "try-compile probes harness/densead_probe_satan2.cpp, densead_probe_createvarn.cpp (what does not instantiate must be exactly what the translator could not translate)",
+    "modelled, not verified: IEEE rounding (theorems are over an arbitrary field / over the reals), libm, FastSmallVector storage, GPU decorators, MathToolbox<E>::isnan/isfinite/isSame (property mode only)",
 ]
 FLAGS = ("-ffp-contract=off",)
 
